@@ -1,8 +1,168 @@
 """C19 -- ICARTT (ffi1001) write/read round trip (bounded run-time contract)."""
 import itertools
+import os
 from .common import *   # noqa
 
-CONTRACTS = []
+import z3
+from pyvc.nparr import sym_array, SArr
+from pyvc.exec import LoopSpec
+from pyvc import frontend
+
+FF = 'icarttfiles/ffi1001.py'
+
+
+class WriterCounts(Contract):
+    """ncf2ffi1001 on a file with NDEP dependent variables and NATTR comment attributes (concrete names) and ANY number n of
+    records: the header-line count declared on the first line equals the number of lines written before the data rows,
+    the declared number of dependent variables equals the number written, one scale factor / missing code / name-unit
+    line per dependent variable, and exactly n data rows follow."""
+    prop = 'C19'
+    target = FF + '::ncf2ffi1001'
+    max_paths = 40
+
+    def __init__(self, ndep, nattr, with_required):
+        self.ndep, self.nattr, self.req = ndep, nattr, with_required
+        self.name = 'ncf2ffi1001[%d dependent variables,%d comment attributes,%s required attributes]' % (ndep, nattr, 'with' if with_required else 'without')
+
+    def inputs(self, ctx, I):
+        n = ctx.fresh('nrec')
+        self.n = n
+        mod = frontend.load('core/_variables.py')
+        cls = I.classref(mod, mod.find('PseudoNetCDFVariable')[0])
+
+        def var(name, **atts):
+            a = sym_array(name, (n,), 'f')
+            a.cls = cls
+            a.attrs.update(dimensions=('POINTS',), _ncattrs=tuple(atts), **atts)
+            return a
+        vs = {'Start_UTC': var('Start_UTC', units='seconds')}
+        for j in range(self.ndep):
+            vs['dep%d' % j] = var('dep%d' % j, units='ppbv', missing_value=-9999 - j) if j % 2 == 0 else var('dep%d' % j)
+        attrs = dict(SDATE='2012, 05, 19', INDEPENDENT_VARIABLE='Start_UTC')
+        if self.req:
+            attrs.update(PI_NAME='Doe, Jane', ORGANIZATION_NAME='Org', SOURCE_DESCRIPTION='instrument', MISSION_NAME='M', VOLUME_INFO='1, 1', WDATE='2012, 06, 01', TIME_INTERVAL='1')
+        for k in range(self.nattr):
+            attrs[['PI_CONTACT_INFO', 'PLATFORM', 'LOCATION', 'DATA_INFO'][k]] = 'value %d: with colon' % k
+        f = pnc_file(I, dimensions={'POINTS': dim_obj(I, 'POINTS', n)}, variables=vs, attrs=attrs)
+        from pyvc.arrays import AbsStr
+        return dict(f=f, outpath=AbsStr(ctx.fresh('outpath')))
+
+    def requires(self, inp):
+        return ge(self.n, 1)
+
+    def small(self, inp):
+        return le(self.n, 2)
+
+    # the loop over the data rows: ghost counters for the rows written and for the lines of the output file
+    def _fid(self, env):
+        return id(env['outfile'])
+
+    def rows_ghost_init(self, env):
+        fid = self._fid(env)
+        self.lines0 = env.ctx.ghost.get(('lines', fid), 0)
+        return {'data_rows': 0, ('lines', fid): self.lines0, ('tofile', fid): 0}
+
+    def rows_ghost_step(self, env):
+        return {'data_rows': add(env.ctx.ghost['data_rows'], 1)}
+
+    def rows_inv(self, env):
+        fid = self._fid(env)
+        k = env[env.frame.loop_index_name]
+        g = env.ctx.ghost
+        return [('index-in-range', And(ge(k, 0), le(k, self.n))),
+                ('one row written per record so far', eq(g['data_rows'], k)),
+                ('every row is one tofile call', eq(g[('tofile', fid)], k)),
+                ('every row ends one line', eq(g[('lines', fid)], add(self.lines0, k)))]
+
+    @property
+    def loops(self):
+        return {3: LoopSpec(inv=self.rows_inv, ghost_init=self.rows_ghost_init, ghost_step=self.rows_ghost_step)}
+
+    def ensures(self, inp, res, I):
+        from pyvc.exec import FmtStr
+        fid = id(res)
+        printed = I.ctx.ghost.get(('printed', fid), [])
+        lines = I.ctx.ghost.get(('lines', fid))
+        if not printed or lines is None:
+            return [('writes-to-the-returned-file', False)]
+        first = printed[0][0] if printed[0] else None
+        declared = ftype = None
+        if isinstance(first, FmtStr) and first.fmt == '%d, %d':
+            declared, ftype = first.args
+        elif isinstance(first, str):
+            import re
+            m_ = re.fullmatch(r'(\d+), (\d+)', first)
+            if m_:
+                declared, ftype = int(m_.group(1)), int(m_.group(2))
+        rows = I.ctx.ghost.get('data_rows')
+        hdr = sub(lines, rows) if rows is not None else None
+        ndep_line = printed[9][0] if len(printed) > 9 and printed[9] else None
+        ndep_decl = ndep_line.args[0] if isinstance(ndep_line, FmtStr) else (int(ndep_line) if isinstance(ndep_line, str) and ndep_line.isdigit() else None)
+        txt = [p_[0] if p_ else None for p_ in printed]
+        names = ['dep%d' % j for j in range(self.ndep)]
+        codes = [str(-9999 - j) if j % 2 == 0 else '-999' for j in range(self.ndep)]
+        per_var = (len(txt) > 12 + self.ndep and isinstance(txt[10], str) and txt[10].split(', ') == ['1'] * self.ndep
+                   and isinstance(txt[11], str) and txt[11].split(', ') == codes
+                   and [t.split(', ')[0] if isinstance(t, str) else None for t in txt[12:12 + self.ndep]] == names)
+        return [('first line is "<count>, 1001"', declared is not None and ftype == 1001),
+                ('one scale factor, one missing code (the variable\'s own, else -999) and one name/unit line per dependent variable, in order', per_var),
+                ('declared header-line count = lines written before the data', declared is not None and hdr is not None and eq(declared, hdr)),
+                ('declared number of dependent variables = number written', ndep_decl is not None and eq(ndep_decl, self.ndep)),
+                ('exactly one data row per record', rows is not None and eq(rows, self.n))]
+
+
+    # -- replay on the real function -----------------------------------------------------------------------------------
+    def concretize(self, model, inp):
+        from pyvc.verify import model_value
+        return dict(ndep=self.ndep, nattr=self.nattr, req=self.req, n=model_value(model, self.n))
+
+    def concretize_without_model(self, inp):
+        return dict(ndep=self.ndep, nattr=self.nattr, req=self.req, n=3)
+
+    def replay(self, c):
+        import numpy as np
+        import tempfile, shutil, warnings
+        P = import_real()
+        from PseudoNetCDF.icarttfiles.ffi1001 import ncf2ffi1001
+        out = None
+        for n in (int(c['n']), 3):
+            if not 1 <= n <= 200:
+                continue
+            f = P.PseudoNetCDFFile()
+            f.createDimension('POINTS', n)
+            f.SDATE, f.INDEPENDENT_VARIABLE = '2012, 05, 19', 'Start_UTC'
+            if c['req']:
+                f.PI_NAME, f.ORGANIZATION_NAME, f.SOURCE_DESCRIPTION, f.MISSION_NAME, f.VOLUME_INFO, f.WDATE, f.TIME_INTERVAL = 'Doe, Jane', 'Org', 'instrument', 'M', '1, 1', '2012, 06, 01', '1'
+            for k in range(int(c['nattr'])):
+                setattr(f, ['PI_CONTACT_INFO', 'PLATFORM', 'LOCATION', 'DATA_INFO'][k], 'value %d: with colon' % k)
+            f.createVariable('Start_UTC', 'd', ('POINTS',), values=np.arange(n) * 60., units='seconds')
+            for j in range(int(c['ndep'])):
+                v = f.createVariable('dep%d' % j, 'd', ('POINTS',), values=np.arange(n) + 0.5 * j)
+                if j % 2 == 0:
+                    v.units, v.missing_value = 'ppbv', -9999 - j
+            d = tempfile.mkdtemp(prefix='verif_c19_')
+            try:
+                with warnings.catch_warnings():
+                    warnings.simplefilter('ignore')
+                    ncf2ffi1001(f, os.path.join(d, 'o.ict')).close()
+                lines = open(os.path.join(d, 'o.ict')).read().split('\n')
+                if lines and lines[-1] == '':
+                    lines = lines[:-1]
+            finally:
+                shutil.rmtree(d, ignore_errors=True)
+            declared = int(lines[0].split(',')[0])
+            ndep_decl = int(lines[9])
+            ok = (len(lines) - declared == n and ndep_decl == int(c['ndep']) and lines[declared - 1].split(', ')[0] == 'Start_UTC'
+                  and len(lines[10].split(', ')) == ndep_decl
+                  and lines[11].split(', ') == [str(-9999 - j) if j % 2 == 0 else '-999' for j in range(int(c['ndep']))])
+            r = (ok, dict(records=n, declared_header_lines=declared, lines_in_file=len(lines), declared_dependent_variables=ndep_decl, missing_codes_line=lines[11], last_header_line=lines[declared - 1][:60]))
+            if not ok:
+                return r
+            out = out or r
+        return out
+
+
+CONTRACTS = [WriterCounts(*x) for x in ((1, 0, True), (2, 1, True), (3, 2, False), (4, 4, True))]
 
 
 def bounded(tier, seed):
@@ -124,9 +284,14 @@ def bounded_replay(p):
 
 
 META = dict(
-    level='exploration',
-    technique='bounded run-time contract on the real writer/reader pair (text parsing via regex/eval/genfromtxt is outside the deductive subset)',
-    text='write/read/write/read compared field by field; declared header-line and variable counts compared with the text actually written.',
-    note='bounded only.',
-    assumptions=[],
-    explanation='')
+    level='other',
+    technique='the counting clauses of the ICARTT writer proved by pyvc (print-to-file as a ghost line counter, cut-point loop over the data rows for ANY number of records); '
+              'the text round trip (regex / eval / genfromtxt parsing) by bounded run-time contract on the real writer/reader pair',
+    text='Proved for ANY number of records and 4 file shapes (1-4 dependent variables, 0-4 comment attributes, with / without the recommended attributes): the header-line count '
+         'declared on the first line equals the number of lines written before the data, the declared number of dependent variables equals the number written, there is one scale '
+         'factor, one missing code (the variable own code, else -999) and one name/unit line per dependent variable in order, and exactly one data row per record follows. '
+         'Bounded: write/read/write/read compared field by field (names, order, units, missing codes, masks, values to 7 digits), re-open by auto-detection, values next to the missing code.',
+    note='variable and attribute names are concrete in the proof (the number of records is not); attribute values are assumed to be one-line texts; the reader (text parsing) is bounded only.',
+    assumptions=['print(..., file=f) writes exactly one line per call (arguments without line breaks); ndarray.tofile(text) writes no line break',
+                 'datetime.strftime of other formats: an abstract one-line text'],
+    explanation='mixed: discharged obligations for the counting clauses of ncf2ffi1001 + bounded text round trips')
